@@ -27,8 +27,9 @@ def is_payload_path(fields):
 def run(ctx):
     prog = ctx.prog
     roots = [f for f in prog.fns.values() if f.trait_method() == 'insert' and f.self_adt in prog.tree_adts and f.family in ('map', 'set')]
-    if len(roots) < 2:
-        ctx.anchor_missing(RULE, 'insert of the map tree and of the set tree', PROPS, len(roots), 2)
+    for fam in ('map', 'set'):
+        if not any(f.family == fam for f in roots):
+            ctx.anchor_missing(RULE, 'insert of the %s tree' % fam, PROPS, 0, 1)
     for root in roots:
         fns = prog.closure(root)
         n_writes = 0
